@@ -55,7 +55,22 @@ def r1(cx, rec):
                 desc.append(('lit', q[1]))
             elif any(x[0] == 'call' and x[1] in ENCODERS for x in walk(q)):
                 enc = [x for x in walk(q) if x[0] == 'call' and x[1] in ENCODERS][0]
-                desc.append(('enc', enc[1], show(enc[2][0])))
+                # nothing but collection/view adaptors between the encoder and the URL
+                post = []
+                y = q
+                while y[0] in ('call', 'cast', 'mvar'):
+                    if y[0] == 'mvar':
+                        y = y[2] if y[2] is not None else ('other', '')
+                        continue
+                    if y[0] == 'cast':
+                        y = y[1]
+                        continue
+                    if y[1] in ENCODERS:
+                        break
+                    post.append(y[4].get('name'))
+                    y = y[2][0] if y[2] else ('other', '')
+                muts = [ce[4].get('name') for bb2, ce in mirq.sharing_calls(U, mirq._ident(q))] if mirq._ident(q) else []
+                desc.append(('enc', enc[1], show(enc[2][0]), tuple(post), tuple(muts)))
             elif any(x[0] == 'call' and x[1].endswith('Metainfo::tracker_url') for x in walk(q)):
                 desc.append(('announce',))
             elif q[0] in ('var', 'mvar'):
@@ -70,6 +85,13 @@ def r1(cx, rec):
             nxt = desc[idx[0] + 1] if idx[0] + 1 < len(desc) else None
             rec.need(nxt is not None and nxt[0] == 'enc' and 'Metainfo::info_hash' in nxt[2], 'info-hash-not-encoded', U, bi,
                      'what follows "info_hash=" is %s, not the percent-encoded info-hash bytes' % (nxt,))
+            if nxt is not None and nxt[0] == 'enc':
+                bad = [n for n in nxt[3] if n not in ('collect', 'as_str', 'as_ref', 'to_string', 'clone', 'into', 'to_owned', 'deref', 'borrow')] + list(nxt[4])
+                rec.need(not bad, 'info-hash-post-processed', U, bi,
+                         'the percent-encoded info-hash is modified after encoding (%s): it no longer decodes to the 20 hash bytes' % bad)
+                src = nxt[2]
+                rec.need(re.fullmatch(r'\(?metainfo::Metainfo::info_hash\(metainfo\)( as &\[u8\]\))?', src) is not None, 'info-hash-source', U, bi,
+                         'the encoder is fed %s, not the whole info-hash' % src)
         # raw hash bytes nowhere else
         raw = [d for d in desc if d[0] == 'other' and 'info_hash' in d[1]]
         rec.need(not raw, 'info-hash-raw', U, bi, 'info-hash bytes are appended without percent-encoding: %s' % raw)
@@ -97,9 +119,9 @@ def r2(cx, rec):
             table[x[4][0][1][1]] = x[4][1][1]
     rec.site(f, qb, 'query parameters: %s' % {k: show(v)[-60:] for k, v in table.items()})
     want = {
-        'peer_id': lambda v: 'self.own_id' in show(v),
-        'port': lambda v: any(y[0] == 'const' and (y[2] or '').endswith('constants::PORT') for y in walk(v)),
-        'left': lambda v: any(y[0] == 'call' and y[1].endswith('Metainfo::total_length') and access_path(y[2][0]) == 'self.metainfo' for y in walk(v)),
+        'peer_id': lambda v: re.search(r'from_utf8\(std::slice::<impl \[T\]>::to_vec\(\(self\.own_id as &\[u8\]\)\)\)', show(v)) is not None and 'take' not in show(v),
+        'port': lambda v: re.fullmatch(r'std::string::ToString::to_string\(constants::PORT\)', show(v)) is not None,
+        'left': lambda v: (lambda s_: re.fullmatch(r'std::string::ToString::to_string\(metainfo::Metainfo::total_length\(self\.metainfo\)\)', s_) is not None)(show(v)),
         'uploaded': lambda v: True,
         'downloaded': lambda v: True,
         'event': lambda v: True,
@@ -132,7 +154,11 @@ def r3(cx, rec):
     for sb in U.switches():
         e, ts, o = U.cond(sb)
         x = mirq.init_of(e)
-        if x[0] == 'call' and x[4].get('name') in ('contains', 'find', 'rfind', 'ends_with') and any(y[0] == 'call' and y[1].endswith('tracker_url') for y in walk(x)):
+        whole = x[0] == 'call' and x[2] and (lambda r_: r_[0] == 'call' and r_[1].endswith('Metainfo::tracker_url'))(mirq.strip(x[2][0]) if x[2][0][0] != 'call' or not x[2][0][1].endswith('tracker_url') else x[2][0])
+        if x[0] == 'call' and x[4].get('name') in ('contains', 'find', 'rfind') and not whole and any(y[0] == 'call' and y[1].endswith('tracker_url') for y in walk(x)):
+            rec.site(U, sb, 'query test applied to a part of the announce URL: %s' % show(x)[:100])
+            rec.violation('query-test-on-substring', U, sb, 'the "?" test looks only at a part of the announce URL (%s): a query containing that delimiter is missed' % show(x[2][0])[:80])
+        if x[0] == 'call' and x[4].get('name') in ('contains', 'find', 'rfind') and whole:
             c = [y for y in walk(x) if y[0] == 'const' and y[1] == 63] + [y for y in walk(x) if y[0] == 'str' and '?' in y[1]]
             if c:
                 # the two edges choose different separators
